@@ -48,7 +48,7 @@ def gen(tier, seed):
                   "    t = [base + ' ', ' ' + base, base.upper(), base[:-1], base + 'x', '', base.capitalize() if base != 'Poisson' else 'poisson', base * 2][k]",
                   "    return bad_choice_rejected(%r, t)" % what, ""])
         conds.append({"fn": "h_choice_near_%s" % what, "what": "near-miss spellings of a valid %s value are refused" % what, "sig": "c20-choice:%s" % what, "structure": "invalid input"})
-    add("environments", "c20-environments", "environments_rejected(k)", ["pre: 0 <= k <= 3"], "empty environment list, the reserved name 'default' and non-string names are refused", "k: int")
+    add("environments", "c20-environments", "environments_rejected(k)", ["pre: 0 <= k <= 5"], "empty environment list, the reserved name 'default' and non-string names are refused, given as list / tuple / numpy array, through the constructor and the setter (a refused assignment changes nothing)", "k: int")
     for kind, form in (("grid", "index"), ("grid", "tuple"), ("grid", "object"), ("graph", "index")):
         add("pos_%s_%s" % (kind, form), "c20-position", "position_rejected(%r, %r, i, x, y, z)" % (kind, form),
             ["pre: i == 0 and -2 <= x <= 4 and -2 <= y <= 3 and -2 <= z <= 3" if form != "index" else "pre: -8 <= i <= 14 and x == 0 and y == 0 and z == 0"],
